@@ -90,7 +90,10 @@ static Reg r_inv("ginverse", [](const Args& a) {
   if (bits(rx.s12) != bits(re.s12) || bits(rx.azi1) != bits(re.azi1) || bits(rx.azi2) != bits(re.azi2) || bits(rx.m12) != bits(re.m12) || bits(rx.S12) != bits(re.S12)) BAD("exact-true-delegation", "Geodesic(a,f,true).Inverse differs from GeodesicExact.Inverse");
   // F62 (open): equatorial end points 1-64 ulp beyond the cut-off lon12 = 180(1-f) of the equatorial branch, f >= 0.3, answered with s12 = 0
   { double e, l12 = std::fabs(Math::AngDiff(lon1, lon2, e)); double over = (l12 - 180 * (1 - f)) + (std::signbit(Math::AngDiff(lon1, lon2)) ? -e : e);
-    class_tag = (f >= 0.3 && Math::AngRound(lat1) == 0 && Math::AngRound(lat2) == 0 && over > 0 && over <= 64 * ulp(180.0) && (rg.s12 == 0 || re.s12 == 0)) ? " [class:equatorial-cutoff-roundoff]" : ""; }
+    class_tag = (f >= 0.3 && Math::AngRound(lat1) == 0 && Math::AngRound(lat2) == 0 && over > 0 && over <= 64 * ulp(180.0) && (rg.s12 == 0 || re.s12 == 0)) ? " [class:equatorial-cutoff-roundoff]" : "";
+    // F65 (open): strongly prolate ellipsoids, end points within 1e-5 deg of opposite meridians: the solver converges to the second root of
+    // lambda12(alp1) = lam12 next to the meridian, a geodesic with a conjugate point inside (m12 < 0) that is not the shortest
+    if (class_tag.empty() && f <= -0.25 && std::fabs(180 - l12) <= 1e-5 && re.m12 < -1) class_tag = " [class:prolate-second-root]"; }
   budget_props("series", G, acc_series(f), ea, f, lat1, lon1, lat2, lon2);
   budget_props("exact", E, acc_exact(f), ea, f, lat1, lon1, lat2, lon2);
   // the two solvers agree
